@@ -375,6 +375,7 @@ func (e *Enc) materialize(cur *cursor, x *ssa.Alloc) string {
 	}
 	a := e.allocAddr(cur)
 	e.storeAt(cur.st, a, et, val)
+	e.initBuilder(cur.st, a, et)
 	cur.st.mat[x] = a
 	delete(cur.st.loc, x)
 	return a
